@@ -146,7 +146,7 @@ func c01RunHistory(rep *verifkit.Report, rng *rand.Rand, hidx int) {
 	const sentinel = "sentinel.hist.test"
 	var sentMu sync.Mutex
 	sentArmed, sentStop := false, false
-	var sentSeen, sentBad int
+	var sentSeen, sentBad, sentN int
 	var sentWitness map[string]any
 	curVS := vs
 	var sentWG sync.WaitGroup
@@ -165,14 +165,22 @@ func c01RunHistory(rep *verifkit.Report, rng *rand.Rand, hidx int) {
 
 				continue
 			}
-			resp, xerr := vkExchange(srv, "127.0.0.5", false, dns.Fqdn(sentinel), dns.TypeA)
+			// Alternately the name blocked by the custom rule and a name of
+			// the bulk list (file-backed, and mostly one the current engine
+			// has not looked at yet).
+			sentN++
+			qn := sentinel
+			if sentN%2 == 0 {
+				qn = fmt.Sprintf("bulk%d.bulk.test", (sentN*7919)%4000)
+			}
+			resp, xerr := vkExchange(srv, "127.0.0.5", false, dns.Fqdn(qn), dns.TypeA)
 			sentMu.Lock()
 			if sentArmed && curVS == srv && xerr == nil && resp != nil {
 				sentSeen++
 				if c01HasMarker(resp) {
 					sentBad++
 					if sentWitness == nil {
-						sentWitness = map[string]any{"reply": resp.String()}
+						sentWitness = map[string]any{"query": qn, "reply": resp.String()}
 					}
 				}
 			}
@@ -288,7 +296,9 @@ func c01RunHistory(rep *verifkit.Report, rng *rand.Rand, hidx int) {
 		return
 	}
 	for w := 0; w < 400; w++ {
-		if b, _, ok := blockedNow(vs, sentinel, "127.0.0.5"); ok && b {
+		b1, _, ok1 := blockedNow(vs, sentinel, "127.0.0.5")
+		b2, _, ok2 := blockedNow(vs, "bulk3999.bulk.test", "127.0.0.5")
+		if ok1 && ok2 && b1 && b2 {
 			arm(true)
 
 			break
@@ -563,6 +573,30 @@ func c01RunHistory(rep *verifkit.Report, rng *rand.Rand, hidx int) {
 					}
 				}
 			}
+		case k < 11 && rng.Intn(3) == 0:
+			// A burst: three rule changes without waiting in between (the
+			// rebuilds are queued and coalesced); the last one is the
+			// configuration.
+			var last []string
+			for b := 0; b < 3; b++ {
+				last = []string{"||" + sentinel + "^"}
+				for _, n := range names {
+					switch rng.Intn(6) {
+					case 0:
+						last = append(last, "||"+n+"^")
+					case 1:
+						last = append(last, "@@||"+n+"^")
+					}
+				}
+				st, body = c01HCall(vs, "POST", "/control/filtering/set_rules", map[string]any{"rules": last})
+				if st != 200 {
+					break
+				}
+			}
+			if st == 200 {
+				custom = last
+			}
+			op = fmt.Sprintf("set_rules-burst-of-3 last=%v", last)
 		case k < 11:
 			custom = nil
 			for _, n := range names {
@@ -695,7 +729,7 @@ func c01RunHistory(rep *verifkit.Report, rng *rand.Rand, hidx int) {
 		sentMu.Unlock()
 		if bad > 0 {
 			rep.Violate("history:always-blocked-name-forwarded-during:"+strings.Fields(op)[0],
-				fmt.Sprintf("a name blocked by a custom rule in every configuration of the history was forwarded %d times (of %d queries) while the configuration was being changed", bad, seen),
+				fmt.Sprintf("a name blocked in every configuration of the history (by a custom rule or by the permanently enabled bulk list) was forwarded %d times (of %d queries) while the configuration was being changed", bad, seen),
 				map[string]any{"history": trail, "custom_rules": custom, "first": sw})
 
 			return
